@@ -13,11 +13,15 @@ import (
 // mode without Set). Invariant on every execution: deep snapshot before = after.
 
 type c04Job struct {
-	queries []*gen.Query
-	ladder  []gen.Unit
-	ds      *docSet
-	env     *impl.Env
-	nq      int // number of query units
+	// big[di]: a 5-node document of the thorough tier; the depth-3 expressions (units from
+	// firstTriple on) are evaluated on all the other documents only
+	big         []bool
+	firstTriple int
+	queries     []*gen.Query
+	ladder      []gen.Unit
+	ds          *docSet
+	env         *impl.Env
+	nq          int // number of query units
 }
 
 const c04Chunk = 8
@@ -28,12 +32,27 @@ func newC04(tier string) run.Job {
 	for _, cb := range gen.Pairs(gen.ReducedAtoms()) {
 		j.queries = append(j.queries, cb.Q)
 	}
+	j.firstTriple = len(j.queries) / c04Chunk
 	tiny := gen.TinyAtoms()
 	if tier != "thorough" {
 		tiny = tiny[:5]
 	}
 	for _, cb := range gen.Triples(tiny) {
 		j.queries = append(j.queries, cb.Q)
+	}
+	// user functions inside logical operands: the functions observe the caller's document while
+	// the retrieval is still running (see Observe below)
+	a, b := gen.P('@', gen.Name("a")), gen.P('@', gen.Name("b"))
+	fatoms := []*gen.Query{
+		gen.Cmp("==", gen.OpP(gen.P('@', gen.Name("a")).F("f")), gen.LitNum(2)),
+		gen.Cmp("==", gen.OpP(gen.P('@', gen.Wild()).F("cnt")), gen.LitNum(1)),
+		gen.Exists(gen.P('@', gen.Name("b")).F("id")),
+	}
+	for _, fq := range fatoms {
+		j.queries = append(j.queries, fq)
+		for _, x := range []*gen.Query{gen.Exists(a), gen.NotExists(b), gen.Cmp("==", gen.OpP(a), gen.LitNum(1)), gen.Cmp("!=", gen.OpP(b), gen.OpP(gen.P('$', gen.Name("b"))))} {
+			j.queries = append(j.queries, gen.Or(x, fq), gen.Or(fq, x), gen.And(x, fq), gen.And(fq, x))
+		}
 	}
 	j.nq = (len(j.queries) + c04Chunk - 1) / c04Chunk
 	// both decodings: a json.Number may be rewritten in place as well
@@ -43,7 +62,9 @@ func newC04(tier string) run.Job {
 		spec4.Scalars = gen.S3
 	}
 	j.ds = &docSet{modes: modes}
-	for _, d := range append(gen.Docs(spec4), gen.WideDocs()...) {
+	nd := len(gen.Docs(spec4))
+	for i, d := range append(gen.Docs(spec4), gen.WideDocs()...) {
+		j.big = append(j.big, i < nd && gen.Nodes(d) >= 5)
 		j.ds.text = append(j.ds.text, gen.JSON(d))
 		for _, m := range modes {
 			cp := gen.Clone(d)
@@ -129,11 +150,31 @@ func (j *c04Job) RunUnit(i int, c *run.Ctx) {
 			runtime.GC()
 			runtime.GC()
 			for di := 0; di < j.ds.n(); di++ {
+				if i > j.firstTriple && i < j.nq && di < len(j.big) && j.big[di] {
+					continue
+				}
 				c.Tick()
 				for k, f := range []impl.Func{pr.F, pa.F} {
 					doc := j.ds.docs[m][di]
+					during := ""
+					j.env.Observe = func() {
+						if during == "" && !sameJSON(doc, j.ds.pristine[m][di]) {
+							during = showVal(doc)
+						}
+					}
 					res := impl.Call(f, doc)
+					j.env.Observe = nil
 					c.Evals++
+					if during != "" {
+						cs := caseOfP("C04", p, text, j.ds.text[di], m, map[int]string{0: "plain", 1: "accessor"}[k])
+						cs["during"] = true
+						c.Violate(run.Violation{
+							Sig:    "source-modified-during-call:" + gen.Shape(p),
+							Detail: fmt.Sprintf("%s on %s (%s): a user function called by the retrieval saw the caller's document as %s", text, j.ds.text[di], modeName[m], during),
+							Size:   len(text)*100 + len(j.ds.text[di]),
+							Case:   cs,
+						})
+					}
 					c.Outcome(res.Key())
 					if res.ErrType == "" {
 						c.Nontrivial++
@@ -188,11 +229,12 @@ func init() {
 		Assumptions: []string{
 			"before each path sync.Pool is emptied (two garbage collections), so pooled buffers start small as in a fresh process",
 			"deep structural comparison with a pristine copy built before the call; a difference is confirmed on a fresh document with a fresh Parse before it is reported",
+			"every user function the retrieval calls compares the caller's document with the pristine copy at that moment (a write that is undone before the call returns is still a write to caller data)",
 			"the clause about sharing one document between goroutines is explored by C06",
 		},
 		Bounds: map[string]string{
 			"quick":    "every atom (219), every A&&B / A||B over 24 atoms (1152) and 5 depth-3 shapes over 5 atoms (625) as a filter in 8 positions ($[?], $.a[?], $.*[?], $..[?], $[?].a, $[?][?(@.a)], $[0][?], $.c[?]); plus all paths of <=2 steps over the 50-step alphabet (functions after <=1 step); every document of <=4 nodes (scalars {1,\"a\",null}), the wide and member documents, plus 48 containers of 2..3 members that all / partly / never have the operand members; both decodings; plain and accessor mode; after every call the document of the previous call is checked too",
-			"thorough": "depth-3 shapes over 8 atoms (2560); every document of <=5 nodes in both decodings",
+			"thorough": "depth-3 shapes over 8 atoms (2560) on the quick documents; atoms, pairs and ladder paths on every document of <=5 nodes in both decodings",
 		},
 		New: newC04,
 		Replay: func(cs map[string]interface{}) (bool, string) {
@@ -223,6 +265,17 @@ func init() {
 					return false, "does not parse"
 				}
 				before := gen.Clone(doc)
+				if cs["during"] == true {
+					during := ""
+					env.Observe = func() {
+						if during == "" && !sameJSON(doc, before) {
+							during = showVal(doc)
+						}
+					}
+					impl.Call(pr.F, doc)
+					env.Observe = nil
+					return during != "", "document as seen by a user function during the call: " + during
+				}
 				impl.Call(pr.F, doc)
 				return !sameJSON(doc, before), "document after the call: " + showVal(doc)
 			})
